@@ -12,6 +12,7 @@ Decided clauses (structure only):
   C07.c  a comment cannot swallow following text: generator code emits block comments only
          (no `--` output), interpolating user comment text only through sanitize_comment, which
          rewrites both `*/` and `/*`.
+  C07.d  text-bearing leaves: the text wrapped in quote delimiters has passed _replace_line_breaks.
 Does not decide: that pretty/pad/indent/leading_comma/max_text_width influence whitespace only.
 """
 
@@ -239,7 +240,90 @@ def rule_c(ctx: Ctx) -> None:
     ctx.count("fixture_hits", 1)
 
 
-RULES = [rule_a, rule_b, rule_c]
+TEXT_LEAF_EMITTERS = ("literal_sql", "identifier_sql", "rawstring_sql", "unicodestring_sql", "bytestring_sql", "national_sql")
+NEUTRALISERS = ("self._replace_line_breaks", "self.escape_str")
+
+
+def _is_delim(e: ast.AST) -> bool:
+    t_ = norm(e).lower()
+    return isinstance(e, (ast.Name, ast.Attribute)) and any(k in t_ for k in ("quote", "_start", "_end", "identifier_start", "identifier_end")) and "(" not in t_
+
+
+def rule_d(ctx: Ctx) -> None:
+    ctx.rule(
+        "C07.d",
+        "multi-line user text in pretty mode: in every emitter of a text-bearing leaf (literal/identifier/raw/unicode/byte/national string) the text placed "
+        "between quote delimiters has passed through _replace_line_breaks (directly or via escape_str) on every path, so indentation never pads the "
+        "continuation lines of a literal",
+    )
+    from ..cfg import CFG, forward
+
+    repo = ctx.repo
+    g0 = repo.cls(GEN, "Generator")
+    n = 0
+    for c in [g0] + repo.subclasses(g0):
+        for name, md in c.methods().items():
+            if name not in TEXT_LEAF_EMITTERS:
+                continue
+            where = f"{c.key}.{name}"
+            m = c.module
+            sites = []
+            for js in walk_no_nested(md):
+                if not isinstance(js, ast.JoinedStr):
+                    continue
+                fv = [v.value for v in js.values if isinstance(v, ast.FormattedValue)]
+                if len(fv) >= 3 and _is_delim(fv[0]) and any(_is_delim(x) for x in fv[2:]):
+                    last = max(i for i, x in enumerate(fv) if _is_delim(x))
+                    for mid in fv[1:last]:
+                        if not _is_delim(mid):
+                            sites.append((js, mid))
+            if not sites:
+                ctx.ok(f"{where}|no delimiter-wrapping f-string (delegates)")
+                continue
+            g = CFG(md)
+
+            def neutral(e: ast.AST, facts: frozenset) -> bool:
+                if isinstance(e, ast.Call):
+                    if call_name(e) in NEUTRALISERS:
+                        return True
+                    # v.replace(..) / v.strip() ... of an already neutral value keeps it neutral
+                    if isinstance(e.func, ast.Attribute) and e.func.attr in ("replace", "strip", "lower", "upper", "sub"):
+                        return neutral(e.func.value, facts) or any(neutral(a, facts) for a in e.args[-1:]) if e.func.attr == "sub" else neutral(e.func.value, facts)
+                    return False
+                if isinstance(e, ast.Name):
+                    return e.id in facts
+                if isinstance(e, ast.JoinedStr):
+                    return all(neutral(v.value, facts) or _is_delim(v.value) for v in e.values if isinstance(v, ast.FormattedValue))
+                if isinstance(e, ast.IfExp):
+                    return neutral(e.body, facts) and neutral(e.orelse, facts)
+                if isinstance(e, ast.Constant):
+                    return True
+                return False
+
+            def tr(nd, lab, s):
+                a = nd.ast
+                if nd.kind in ("stmt", "with") and isinstance(a, ast.Assign) and len(a.targets) == 1 and isinstance(a.targets[0], ast.Name):
+                    v = a.targets[0].id
+                    return (s | {v}) if neutral(a.value, s) else (s - {v})
+                return s
+
+            IN = forward(g, frozenset(), tr, lambda p, q: p & q)
+            for js, mid in sites:
+                n += 1
+                nodes = g.nodes_for(js)
+                facts = frozenset.intersection(*[IN[q] for q in nodes if IN.get(q) is not None]) if nodes else frozenset()
+                inst = f"{where}|{norm(js, 70)}|{norm(mid, 40)}"
+                if neutral(mid, facts):
+                    ctx.ok(inst, {"emitter": where, "text": norm(mid, 40), "neutralised": True})
+                else:
+                    ctx.fail(m, js, where, js,
+                             f"`{norm(mid, 40)}` is wrapped in quote delimiters without having passed through _replace_line_breaks / escape_str on every path: "
+                             f"with pretty=True a line break inside the literal is indented like SQL text, changing the literal's value")
+    ctx.count("delimited_text_sites", n)
+    ctx.min_instances("delimited_text_sites", n, 4)
+
+
+RULES = [rule_a, rule_b, rule_c, rule_d]
 EXPLANATION = (
     "Pairing and confinement rules on the generator: the sentinel's single guarded insertion/removal pair with "
     "post-domination of generate()'s returns and delegation of overrides, injectivity of the substitution, flow of "
